@@ -391,15 +391,10 @@ class Case:
         self.verdict = [None] * len(checks)                  # 'pass' | 'fail' | 'inconclusive'
 
     def text(self, only=None, force=None):
-        """Coq text: environment definition + one lemma per check (claimed verdict = prediction)"""
-        s = "Definition E_%s : env bigZ :=\n  %s.\n" % (self.name, coq_env(self.env))
-        for j, (label, p) in enumerate(self.checks):
-            if only is not None and j != only:
-                continue
-            claim = self.pred[j] if force is None else force
-            s += "(* %s *)\nLemma %s_%d : bcheck E_%s\n  %s = %s.\nProof. vm_cast_no_check (eq_refl (%s)). Qed.\n" % (
-                label, self.name, j, self.name, coq_p(p), VERDICT[claim], VERDICT[claim])
-        return s
+        """Coq text (without header): environment definition + the selected lemmas"""
+        js = range(len(self.checks)) if only is None else [only]
+        txt, _ = _emit([(self, j) for j in js], force=force)
+        return txt[len(HEADER):]
 
 
 # ----------------------------------------------------------------------------- build + run
@@ -440,13 +435,42 @@ def _coqc(path, timeout):
         return -9, "timeout after %ss" % timeout, time.time() - t0
 
 
+class InfrastructureError(RuntimeError):
+    pass
+
+
+def _emit(items, force=None):
+    """Coq text for a list of (case, j) in order; returns (text, spans) with spans[k] = (first_line, last_line)
+    of the k-th lemma (1-based line numbers, HEADER included)."""
+    lines = HEADER.rstrip("\n").split("\n")
+    spans = []
+    defined = set()
+    for c, j in items:
+        if c.name not in defined:
+            defined.add(c.name)
+            lines += ("Definition E_%s : env bigZ :=\n  %s." % (c.name, coq_env(c.env))).split("\n")
+        label, p = c.checks[j]
+        claim = c.pred[j] if force is None else force
+        a = len(lines) + 1
+        lines += ("(* %s *)\nLemma %s_%d : bcheck E_%s\n  %s = %s.\nProof. vm_cast_no_check (eq_refl (%s)). Qed." % (
+            label.replace("*)", "* )"), c.name, j, c.name, coq_p(p), VERDICT[claim],
+            "@None bool" if claim is None else VERDICT[claim])).split("\n")
+        spans.append((a, len(lines)))
+    return "\n".join(lines) + "\n", spans
+
+
+_ERRLINE = re.compile(r'File "[^"]*", line (\d+), characters')
+
+
 def run_cases(tag, cases, batch=50, timeout=300, single_timeout=120, nproc=NPROC):
     """Write, compile and classify.  Returns stats dict; fills case.verdict[j] with
     'pass' (Coq proved `= Some true`), 'fail' (Coq proved `= Some false`: certified violation),
-    'inconclusive' (time-out, ill-formed, or neither statement provable)."""
+    'inconclusive' (time-out, ill-formed, or neither statement provable).
+    A lemma counts as proved iff coqc accepted its Qed: the whole file compiled, or coqc's first error is
+    located strictly after it."""
     ok, log = ensure_built()
     if not ok:
-        raise RuntimeError("coq_qcheck build failed: " + log)
+        raise InfrastructureError("coq_qcheck build failed: " + log)
     d = os.path.join(BUILD, tag)
     os.makedirs(d, exist_ok=True)
     for f in os.listdir(d):
@@ -455,58 +479,89 @@ def run_cases(tag, cases, batch=50, timeout=300, single_timeout=120, nproc=NPROC
             except OSError: pass
     nlem = sum(len(c.checks) for c in cases)
     per = max(1, min(batch, -(-nlem // (3 * nproc))))
-    # greedy batches by lemma count
-    batches, cur, cnt = [], [], 0
+    batches, cur = [], []
     for c in cases:
-        cur.append(c); cnt += len(c.checks)
-        if cnt >= per:
-            batches.append(cur); cur, cnt = [], 0
+        cur += [(c, j) for j in range(len(c.checks))]
+        if len(cur) >= per:
+            batches.append(cur); cur = []
     if cur:
         batches.append(cur)
-    paths = []
-    for bi, b in enumerate(batches):
-        path = os.path.join(d, "%s_b%03d.v" % (tag, bi))
-        with open(path, "w") as f:
-            f.write(HEADER + "\n".join(c.text() for c in b))
-        paths.append(path)
     t0 = time.time()
-    with ThreadPoolExecutor(nproc) as ex:
-        res = list(ex.map(lambda p: _coqc(p, timeout), paths))
-    redo = []
-    for b, (rc, out, secs) in zip(batches, res):
-        if rc == 0:
-            for c in b:
-                for j in range(len(c.checks)):
-                    c.verdict[j] = {True: "pass", False: "fail", None: "inconclusive"}[c.pred[j]]
-        else:
-            redo += [(c, j) for c in b for j in range(len(c.checks))]
-    # individual classification of every lemma of a failed batch
-    def single(cj):
+    nfiles = [0]
+    cmd_paths = []
+
+    def single(cj, skip_claim=None):
         c, j = cj
         order = [c.pred[j]] + [v for v in (True, False) if v != c.pred[j]]
         for claim in order:
-            if claim is None:
+            if claim is None or claim == skip_claim:
                 continue
             path = os.path.join(d, "%s_%s_%d_%s.v" % (tag, c.name, j, {True: "T", False: "F"}[claim]))
+            txt, _ = _emit([cj], force=claim)
             with open(path, "w") as f:
-                f.write(HEADER + c.text(only=j, force=claim))
+                f.write(txt)
             rc, out, secs = _coqc(path, single_timeout)
             if rc == 0:
-                return ("pass" if claim else "fail"), path
+                return ("pass" if claim else "fail")
             if rc == -9:
-                return "inconclusive", path
-        return "inconclusive", None
-    if redo:
-        with ThreadPoolExecutor(nproc) as ex:
-            rs = list(ex.map(single, redo))
-        for (c, j), (v, path) in zip(redo, rs):
+                return "inconclusive"
+            if "inconsistent assumptions" in out or "Cannot find a physical path" in out:
+                raise InfrastructureError(out[-400:])
+        return "inconclusive"
+
+    def do_batch(arg):
+        bi, items = arg
+        res = {}
+        redo = 0
+        gen = 0
+        todo = list(items)
+        while todo:
+            path = os.path.join(d, "%s_b%03d%s.v" % (tag, bi, "" if gen == 0 else "_r%d" % gen))
+            txt, spans = _emit(todo)
+            with open(path, "w") as f:
+                f.write(txt)
+            nfiles[0] += 1
+            if gen == 0:
+                cmd_paths.append(path)
+            rc, out, secs = _coqc(path, timeout)
+            if rc == 0:
+                for c, j in todo:
+                    res[(c.name, j)] = {True: "pass", False: "fail", None: "inconclusive"}[c.pred[j]]
+                break
+            if "inconsistent assumptions" in out or "Cannot find a physical path" in out:
+                raise InfrastructureError(out[-400:])
+            m = _ERRLINE.search(out)
+            k = None
+            if m:
+                line = int(m.group(1))
+                k = next((t for t, (a, b) in enumerate(spans) if a <= line <= b), None)
+            if k is None:
+                # time-out or an error outside any lemma: decide every remaining lemma on its own
+                for cj in todo:
+                    res[(cj[0].name, cj[1])] = single(cj); redo += 1
+                break
+            for c, j in todo[:k]:
+                res[(c.name, j)] = {True: "pass", False: "fail", None: "inconclusive"}[c.pred[j]]
+            c, j = todo[k]
+            res[(c.name, j)] = single(todo[k], skip_claim=c.pred[j]); redo += 1
+            todo = todo[k + 1:]
+            gen += 1
+        return res, redo
+
+    with ThreadPoolExecutor(nproc) as ex:
+        outs = list(ex.map(do_batch, list(enumerate(batches))))
+    byname = {c.name: c for c in cases}
+    redo = 0
+    mis = 0
+    for res, r in outs:
+        redo += r
+        for (name, j), v in res.items():
+            c = byname[name]
             c.verdict[j] = v
-            if path:
-                c.meta.setdefault("single_files", {})[j] = path
-    stats = {"files": len(paths), "lemmas": nlem, "failed_batches": sum(1 for r in res if r[0] != 0),
-             "reclassified": len(redo), "coq_wall_s": round(time.time() - t0, 1),
-             "mispredicted": sum(1 for c, j in redo if c.verdict[j] != "inconclusive" and
-                                 c.verdict[j] != {True: "pass", False: "fail", None: "x"}[c.pred[j]]),
+            if v in ("pass", "fail") and v != {True: "pass", False: "fail", None: "x"}[c.pred[j]]:
+                mis += 1
+    stats = {"files": nfiles[0], "lemmas": nlem, "failed_batches": sum(1 for _, r in outs if r),
+             "reclassified": redo, "coq_wall_s": round(time.time() - t0, 1), "mispredicted": mis,
              "cmd": " ".join(COQC) + " " + os.path.join(d, tag + "_b*.v")}
     return stats
 
